@@ -237,14 +237,16 @@ fn gen_pos(t: &mut Tape, prev: Option<(i32, i32)>, adversarial: bool) -> (i32, i
 }
 
 fn gen_gap(t: &mut Tape, p: &MapProfile) -> f64 {
-    let w: &[u32] = if p.long_gaps { &[10, 3, 4, 2, 1, 1] } else { &[10, 3, 4, 2, 0, 0] };
+    let w: &[u32] = if p.long_gaps { &[20, 6, 8, 4, 2, 1, 1] } else { &[20, 6, 8, 4, 0, 0, 0] };
     match t.weighted(w) {
         0 => t.range(60, 600) as f64,
         1 => 0.0,
         2 => t.range(1, 20) as f64,
         3 => t.range(1000, 5000) as f64,
         4 => t.range(5_000, 60_000) as f64,
-        _ => t.range(60_000, 600_000) as f64,
+        5 => t.range(60_000, 600_000) as f64,
+        // long enough for every skill's strain to decay to exactly zero: runs of zero sections
+        _ => t.range(600_000, 4_000_000) as f64,
     }
 }
 
@@ -541,6 +543,10 @@ pub fn map_labels(spec: &MapSpec, info: &mut crate::engine::CaseInfo) {
     info.label_if(
         spec.objects.windows(2).any(|w| w[1].time - w[0].time >= 5000.0),
         "long-gap",
+    );
+    info.label_if(
+        spec.objects.windows(2).any(|w| w[1].time - w[0].time >= 600_000.0),
+        "gap>=10min",
     );
     info.label_if(spec.objects.windows(2).any(|w| w[1].time == w[0].time), "equal-times");
     info.label_if(spec.version.is_some_and(|v| v < 8), "version<8");
